@@ -34,6 +34,8 @@ def akai_payload():
                 ch = list(range(sec, sec + m))[::-1]
                 sec += m
                 f = {"name": nm, "n": n, "chain": ch, "seq": seq}
+                if nm == "SOLO":
+                    f["start"], f["end"] = 30, n - 7      # play window not starting at 0: loop points relative to it
                 if nm in ("ONE", "SOLO"):
                     # active loops (two finite, one held forever): everything that is derived from the loop table
                     f["hdr"] = {"loop_type": 1 if nm == "ONE" else 0, "loops": [(100, 0, 40, 250), (200, 0, 50, 9999), (0, 0, 0, 0), (250, 3, 20, 7)]}
